@@ -1398,12 +1398,6 @@ static int upipe_h264f_handle_slice(struct upipe *upipe, struct ubuf *ubuf,
         ubuf_block_stream_clean(s);
         return UBASE_ERR_BUSY;
     }
-    upipe_h264f->frame_num = frame_num;
-    upipe_h264f->slice_type = slice_type;
-    upipe_h264f->field_pic = field_pic;
-    upipe_h264f->bf = bf;
-    upipe_h264f->idr_pic_id = idr_pic_id;
-
     if (upipe_h264f->poc_type == 0) {
         upipe_h26xf_stream_fill_bits(s, upipe_h264f->log2_max_poc_lsb);
         uint32_t poc_lsb = ubuf_block_stream_show_bits(s,
@@ -1438,6 +1432,12 @@ static int upipe_h264f_handle_slice(struct upipe *upipe, struct ubuf *ubuf,
         upipe_h264f->delta_poc0 = delta_poc0;
         upipe_h264f->delta_poc1 = delta_poc1;
     }
+
+    upipe_h264f->frame_num = frame_num;
+    upipe_h264f->slice_type = slice_type;
+    upipe_h264f->field_pic = field_pic;
+    upipe_h264f->bf = bf;
+    upipe_h264f->idr_pic_id = idr_pic_id;
 
     upipe_h264f->au_slice_nal = nal;
     if (upipe_h264f->au_vcl_offset == -1)
